@@ -159,7 +159,7 @@ def _c08() -> SimEngine:
         sib = {"op": "spawn", "pool": 0, "kind": "map", "n": 3, "nc": 1, "worker": {"script": [["yield", 1]], "fname": "x"}, "place": "inline"}
         cases: List[dict] = []
         for second in (None, sib):
-            c, _ = sweep_space(perts, max_tick=6, places=("inline",), second=second, tail=[{"op": "until_closed", "pool": 0}, {"op": "tick", "k": 2}])
+            c, _ = sweep_space(perts, max_tick=6, places=("inline", "task"), second=second, tail=[{"op": "until_closed", "pool": 0}, {"op": "tick", "k": 2}])
             cases += c
             for case in c:
                 # the same with a group cancelled in the very tick of the call
@@ -229,7 +229,7 @@ def _c13() -> SimEngine:
         for sec in (None, second):
             for tail in ([{"op": "tick", "k": 1}, {"op": "cancel", "pool": 0, "refs": [["run", 0]], "place": "inline"}, {"op": "tick", "k": 2}, {"op": "gate", "k": 0, "place": "inline"}],
                          [{"op": "gate", "k": 0, "place": "inline"}, {"op": "tick", "k": 1}, {"op": "cancel", "pool": 0, "refs": [["run", 0]], "place": "inline"}]):
-                c, _ = sweep_space(perts, max_tick=6, places=("inline",), second=sec, tail=tail)
+                c, _ = sweep_space(perts, max_tick=6, places=("inline", "task"), second=sec, tail=tail)
                 cases += c
         if tier == "quick":
             cases = cases[::8]
